@@ -114,7 +114,9 @@ public:
   explicit CounterIdGenerator(bool random) : sdkt::IdGenerator(random) {}
   tr::SpanId GenerateSpanId() noexcept override
   {
-    uint64_t v = g_id_counter.fetch_add(1);
+    // the counter ids live in their own region (top byte 0xC5) so that they cannot coincide with
+    // the generated explicit parent ids (which include the boundary pattern 00..01)
+    uint64_t v = g_id_counter.fetch_add(1) | 0xC500000000000000ull;
     uint8_t b[8];
     for (int i = 0; i < 8; ++i)
       b[i] = static_cast<uint8_t>(v >> (8 * (7 - i)));
